@@ -216,7 +216,7 @@ class LiftGen:
     def expr(s, depth):
         """int-typed expression + trace"""
         s.n += 1; me = s.n
-        opts = ['var', 'call0'] + ([f for f in ('call1', 'call2', 'callcall', 'add', 'if', 'let', 'tuple', 'while', 'whilematch', 'unitop') if f in s.forms] if depth > 0 else [])
+        opts = ['var', 'call0'] + ([f for f in ('call1', 'call2', 'callcall', 'add', 'div', 'sub', 'mul', 'if', 'let', 'tuple', 'while', 'whilematch', 'unitop') if f in s.forms] if depth > 0 else [])
         k = s.ex.choose([(True, o) for o in opts])
         if k == 'var': return s.var('v%d' % me), []
         if k == 'call0': return s.call('g%d' % me, []), [('call', 'g%d' % me)]
